@@ -320,6 +320,47 @@ func checkOtel(c *Ctx, p *Prog, rule string) {
 		}
 	}
 	if len(instr) != len(byMetric) {
+		// table-driven construction: a constant table whose rows pair a metric name with a
+		// binder built around a field selector (`func(o) *I { return &o.field }`)
+		if op := p.SPkgs[PkgOtel]; op != nil {
+			for _, mem := range op.Members {
+				g, ok := mem.(*ssa.Global)
+				if !ok {
+					continue
+				}
+				rows, ok := globalTableRows(p, g)
+				if !ok {
+					continue
+				}
+				for _, row := range rows {
+					role := ""
+					for _, fv := range row.fields {
+						if k, ok := stripConv(fv).(*ssa.Const); ok && k.Value != nil && k.Value.Kind() == constant.String {
+							if r, ok := byMetric[constant.StringVal(k.Value)]; ok {
+								role = r
+							}
+						}
+					}
+					if role == "" {
+						continue
+					}
+					for _, fv := range row.fields {
+						for _, fn := range funcsIn(fv, 0) {
+							for _, ret := range returnsOf(fn) {
+								if len(ret.Results) != 1 {
+									continue
+								}
+								if tn, fld, _, ok := fieldOfAddr(ret.Results[0]); ok && tn == "Observability" {
+									instr[fld] = role
+								}
+							}
+						}
+					}
+				}
+			}
+		}
+	}
+	if len(instr) != len(byMetric) {
 		c.Unresolved(rule, "UNRESOLVED-ANCHOR/otel.New/instruments", fmt.Sprintf("found %d of %d instruments by their metric names", len(instr), len(byMetric)))
 	}
 	for _, sp := range specs {
@@ -482,4 +523,22 @@ func checkContextKeys(c *Ctx, p *Prog, pkgs []string, rule string) int {
 		}
 	}
 	return n
+}
+
+// funcsIn: the functions a table cell mentions — the cell itself, or function-valued
+// arguments of the call that built it.
+func funcsIn(v ssa.Value, d int) []*ssa.Function {
+	if d > 2 {
+		return nil
+	}
+	if f := funcOfValue(v); f != nil {
+		return []*ssa.Function{f}
+	}
+	var out []*ssa.Function
+	if call, ok := stripConv(v).(*ssa.Call); ok {
+		for _, a := range call.Common().Args {
+			out = append(out, funcsIn(a, d+1)...)
+		}
+	}
+	return out
 }
